@@ -20,10 +20,10 @@ MANIFEST = dict(
                 "+ synthetic declarations for every argument type + all buffer lengths 0..24; (d) ovnisort: one execute_sort_plan from the state "
                 "stream_winsort is in at a closing marker, on <=48 (56) arbitrary bytes walked by the real stream_step, stream_check on <=48 (64) "
                 "bytes, whole stream_winsort on <=36 bytes (thorough); (e) main() of ovnidump/ovnitop/ovnisort with the library as symbolic-return "
-                "stubs (exit status 0/1, hex dump, ovnitop table); (f) ovni.mark metadata of arbitrary JSON types. Confirmed defects of the tree are "
-                "excluded by signature (-DKF_*; C19_NO_KF=1 shows them): pre_type of nosv/nanos6 reads past a short jumbo payload, ev_spec_print "
-                "never checks the payload size (NULL payload: SIGSEGV in ovnidump), ovnisort aborts on clocks >= 2^63 inside a sort region, "
-                "ovniemu -d dereferences the NULL payload of OHC. Outside: parson on JSON text, file-system errors, whole-program hangs beyond the "
+                "stubs (exit status 0/1, hex dump, ovnitop table); (f) ovni.mark metadata of arbitrary JSON types. Four defects found by this check were fixed in "
+                "the tree (pre_type of nosv/nanos6 read past a short jumbo payload: d22f79a; ovnidump decoded arguments without checking the payload "
+                "size, NULL payload SIGSEGV: 8de98ba; ovnisort aborted on clocks >= 2^63 inside a sort region: 4c9aab9; ovniemu -d dereferenced the "
+                "NULL payload of OHC: 1e8d2f1); their signature guards (-DKF_*) are off unless C19_KF=1. Outside: parson on JSON text, file-system errors, whole-program hangs beyond the "
                 "cursor argument, event handlers of the table-driven models (they never read payload bytes; C18), emulation work per event."),
     technique=("CBMC 6.11 bounded symbolic execution of src/emu/{stream,emu_ev,ev_spec,ovnidump,ovnitop,ovnisort}.c, src/emu/{ovni,nosv,nanos6}/event.c, "
                "src/emu/ovni/mark.c, src/rt/ovni.c; data END-ALIGNED in fixed-size heap objects so that CBMC's pointer checks are the over-read oracle; "
@@ -32,9 +32,10 @@ MANIFEST = dict(
 UTHASH = ["stubs/uthash_model"]
 NATIVE_GC = ["-ffunction-sections", "-fdata-sections", "-Wl,--gc-sections", "-Wl,--unresolved-symbols=ignore-all", "-no-pie"]
 
-# Confirmed defects of the tree (reported, /repo untouched): their signature is excluded from the main
-# queries with -DKF_<name>; run with C19_NO_KF=1 to see the unguarded verdicts.
-NO_KF = bool(os.environ.get("C19_NO_KF"))
+# The four defects this check found (pre_type short jumbo, ev_spec_print without payload check, ovnisort signed clock
+# compare, OHC debug NULL payload) were fixed in /repo (d22f79a, 8de98ba, 4c9aab9, 1e8d2f1): the guards that excluded their
+# signatures (-DKF_<name>) are OFF by default; C19_KF=1 turns them on again (to look past a regression).
+NO_KF = not os.environ.get("C19_KF")
 
 
 def kf(*names):
@@ -205,6 +206,7 @@ def obligations(tier, sc):
                 "malloc(n)/calloc(n, 8) of ovnisort.c return END-ALIGNED regions of fixed-size heap objects (requests asserted to be > 0 and <= file size / event count); free is a no-op",
                 "qsort: typed stable insertion sort calling the real cmp_ev",
                 "struct stream is put in the state load_obs() leaves behind the 8-byte header (header: stream_arbitrary_bytes)"]
+    CLK = "every clock, read as int64_t, lies in [-2^62, 2^62) (no signed overflow in stream_step's clock deltas); clocks >= 2^64 - 2^62 unsigned stay in scope"
     sort_fun = ["stream_step", "next_ev_size", "stream_evclock (src/emu/stream.c)", "ovni_ev_size", "ovni_payload_size", "ovni_ev_get_clock (src/rt/ovni.c)"]
 
     def sort_ob(name, mx, defs, desc, **kw):
@@ -228,21 +230,21 @@ def obligations(tier, sc):
                                 oracle="CBMC pointer checks: every read stays inside [first, next) / the file, every write inside the scratch buffers, the event table and the "
                                        "ring; unwinding assertions: every walk terminates within the number of events that fit (cursor strictly advances, sizes are positive); "
                                        "malloc/calloc requests positive and bounded; no die(); return 0 or -1; file size unchanged",
-                                assumptions=SORT_ENV + kf_sort)))
+                                assumptions=SORT_ENV + [CLK] + kf_sort)))
     cmx = 48 if tier == "quick" else 64
     obs.append(sort_ob("S_ovnisort_check", cmx, ["CHECKMODE"],
                        dict(functions=["stream_check (src/emu/ovnisort.c)"] + sort_fun,
                             symbolic="size 0..%d and every byte of the event area" % cmx, bound="<= %d bytes, <= %d events" % (cmx, cmx // 12),
-                            out="clocks >= 2^63 (stream_step computes clock - lastclock in int64_t: formal signed overflow, no crash)",
+                            out="clocks whose int64_t value is outside [-2^62, 2^62) (stream_step computes clock - lastclock in int64_t: formal signed overflow, no crash)",
                             oracle="CBMC pointer checks; loop terminates within the number of events that fit; return 0 or -1; no die()",
-                            assumptions=SORT_ENV[3:] + ["all clocks < 2^63"])))
+                            assumptions=SORT_ENV[3:] + [CLK])))
     if tier == "thorough":
         obs.append(sort_ob("S_ovnisort_winsort", 36, kf("KF_SORT_CLOCK63"),
                            dict(functions=["stream_winsort and everything below it (src/emu/ovnisort.c)"] + sort_fun,
                                 symbolic="size 0..36 and every byte of the event area, look-back size 1..6", bound="<= 36 bytes (3 events)",
                                 out="longer streams (do not finish: three inlined sort plans with symbolic event boundaries)",
                                 oracle="as S_sortplan, plus the marker state machine; cursor ends inside the stream",
-                                assumptions=SORT_ENV + kf_sort)))
+                                assumptions=SORT_ENV + [CLK] + kf_sort)))
 
     # ---- (4)+(5) the tools' own files: main() exit status, ovnidump emit (hex dump), ovnitop accum/report
     mfun = {"dump": ["main", "parse_args", "usage", "emit (src/emu/ovnidump.c)", "emu_ev"],
@@ -307,12 +309,12 @@ def obligations(tier, sc):
                      "EV_JUMBO=" + lst("jumbo"), "EV_STROFF=" + lst("stroff")] + wd + list(extra_defs) + kf("KF_D5_EVSPEC"),
             srcs=["src/rt/ovni.c"], incdirs=UTHASH, unwind=300, timeout=1500, native_cflags=NATIVE_GC,
             extra=["--object-bits", "12", "--max-field-sensitivity-array-size", "256"],
-            desc=dict(functions=["ev_spec_compile", "parse_signature", "parse_args", "parse_arg", "parse_type", "ev_spec_print", "format_region",
+            desc=dict(functions=["model_event_print", "check_payload (src/emu/model.c)", "ev_spec_compile", "parse_signature", "parse_args", "parse_arg", "parse_type", "ev_spec_print", "format_region",
                                  "parse_printf_format", "parse_arg_name", "ev_spec_find_arg", "print_arg (src/emu/ev_spec.c)", "emu_ev", "ovni_payload_size"],
                       symbolic="declaration selector; one event with the code of the declaration: flags byte (all 8 bits), clock, payload of the announced length (0 or 2..16 bytes; "
                                "jumbo: size 0..8 + data), every byte" + ("; buffer length 0..24 and length 1..6 of every formatted number (all pairs, case split)" if small else ""),
                       bound=what or ("declarations %s of the real evlist of model %s (%s)" % (idx, m, "one per argument shape" if tier == "quick" else "slice of all")),
-                      out="the lookup by MCV (model_evspec_find: C18); number formatting by libc (any length 1 is assumed for a number, except in the smallbuf query); "
+                      out="the lookup by MCV (model_evspec_find is a ghost returning the compiled declaration: C18 E_evspec_init); number formatting by libc (any length 1 is assumed for a number, except in the smallbuf query); "
                           "declarations whose argument types/formats differ from the visited ones (quick tier)",
                       oracle="CBMC pointer checks with the event END-ALIGNED in a heap object (print_arg reads through a byte pointer: byte-exact) and payload == NULL for "
                              "an event without payload; snprintf shadow asserts its window lies inside the caller's buffer and walks a %s argument to its nil; on success "
